@@ -133,6 +133,8 @@ def _build_number_equivalents(
         np.dtype(builtin_name).type,
         # e.g: pandera.dtypes.Int
         getattr(dtypes, pandera_name),
+        # e.g.: pandera.dtypes.Int()
+        getattr(dtypes, pandera_name)(),
     ]
     if builtin_type:
         default_equivalents.append(builtin_type)
@@ -145,8 +147,6 @@ def _build_number_equivalents(
                 # e.g.: pandera.dtypes.Int64
                 getattr(dtypes, f"{pandera_name}{bit_width}"),
                 getattr(dtypes, f"{pandera_name}{bit_width}")(),
-                # e.g.: pandera.dtypes.Int(64)
-                getattr(dtypes, pandera_name)(),
             }
             | set(default_equivalents if bit_width == default_size else [])
         )
